@@ -96,6 +96,7 @@ class Conv:
         self.doomed = False
         self.nasync = 0
         self.after_crash = False
+        self.fresh_life = False   # restarted, and no environment requested of the new life yet
         self.cur_st = None
 
     # -- helpers
@@ -110,7 +111,7 @@ class Conv:
         if not final and (tset(st["rq"]) or tset(st["rcv"])):
             # the model lets the core go on while reconciliation updates are still queued; the driver cannot
             raise Undrivable("a driver step before the recovery has settled")
-        if q == "restart":
+        if q == "restart" or self.fresh_life:
             self.emit(do="c18_waitdead", timeout_ms=3000)
             self.emit(do="settle", ms=150)
             self.emit(do="c18_fid")
@@ -214,10 +215,10 @@ class Conv:
         if gates is None or any(g not in self.held for g in gates):
             raise Undrivable("the request cannot be held in phase %s" % ph)
         if self.hookgate:
-            self.emit(do="waitgate", point="task.lock", timeout_ms=10000)
+            self.emit(do="waitgate", point="task.lock", timeout_ms=25000)
         for g in gates:
             n = op["ntasks"] if (g == "LAUNCH" or g.startswith("MESSAGE:")) else 1
-            self.emit(do="c18_waitgate", point=g, n=n, timeout_ms=10000)
+            self.emit(do="c18_waitgate", point=g, n=n, timeout_ms=25000)
         if "LAUNCH" in gates and not self.hookgate:
             self.emit(do="settle", ms=100)  # the roster is written right after the ACCEPT
         return gates
@@ -259,6 +260,16 @@ class Conv:
                     raise Undrivable("crash during the first reconciliation")
                 arm_kill_at[p[-1]] = (kills + 1, j)
         midrec = {v[1] for v in arm_kill_at.values()}
+        # stream dropped while the answer to a RECONCILE call is on its way: the call must be held at the master
+        arm_rec_at, lostans = {}, set()
+        for j, a in enumerate(acts):
+            if a["act"] == "DropConnection" and tset(acts[j - 1]["st"]["rq"]):
+                r = max(k for k in range(j) if acts[k]["act"] == "Reconcile")
+                p = [k for k in range(r) if acts[k]["act"] in ("Crash", "DropConnection")]
+                if not p or p[-1] in arm_kill_at:
+                    raise Undrivable("cannot hold this RECONCILE call")
+                arm_rec_at[p[-1]] = j
+                lostans.add(j)
         for i, a in enumerate(acts):
             act, e, st = a["act"], a["arg"], a["st"]
             prev = acts[i - 1]["st"] if i > 0 else None
@@ -274,6 +285,7 @@ class Conv:
             self.cur_st = st
             if act == "NewEnv":
                 self.flush(prev)
+                self.fresh_life = False
                 n = self.ntasks_for(i, e)
                 wf = self.new_wf(n)
                 self.start_async(i, e, st, "create", "ConfigureDone",
@@ -291,7 +303,10 @@ class Conv:
                 mid = i in midrec
                 if mid:
                     self.quiesce = None
-                    self.emit(do="c18_waitgate", point="KILL", timeout_ms=10000)
+                    self.emit(do="c18_waitgate", point="KILL", timeout_ms=25000)
+                elif i in lostans:
+                    self.quiesce = None
+                    self.emit(do="c18_waitgate", point="RECONCILE", timeout_ms=25000)
                 else:
                     self.flush(prev)
                     opgates = self.wait_op_held(i) if self.op else []
@@ -301,6 +316,7 @@ class Conv:
                     self.emit(do="killcore")
                     self.down = True
                     self.after_crash = True
+                    self.fresh_life = True
                     if mid:
                         self.release("KILL", "drop")
                     if self.op:
@@ -311,10 +327,16 @@ class Conv:
                         self.await_op()
                     if i in arm_kill_at:
                         self.arm("KILL", arm_kill_at[i][0])
+                    if i in arm_rec_at:
+                        self.arm("RECONCILE")
                 else:
                     if i in arm_kill_at:
                         self.arm("KILL", arm_kill_at[i][0])
                     self.emit(do="dropstream")
+                    if i in lostans:
+                        self.release("RECONCILE")   # answered into the void
+                    if i in arm_rec_at:
+                        self.arm("RECONCILE")
             elif act == "CoreStart":
                 self.emit(do="startcore")
                 self.down = False
@@ -380,7 +402,7 @@ def point_key(p):
 
 
 CRASH_RANK = ["deploying", "launch", "configuring", "-:configured", "starting", "-:running", "killing", "-:midreconcile", "-:done"]
-DROP_RANK = ["-:configured", "-:running", "configuring", "starting", "locked", "deployed", "killing"]
+DROP_RANK = ["-:configured", "-:running", "configuring", "starting", "-:midreconcile", "locked", "deployed", "killing"]
 
 
 def rank(key):
@@ -406,7 +428,7 @@ def fault_points(acts):
             stg = sorted({prev["mt"][t]["st"] for x in tr for t in tset(prev["etasks"][x])})
             alive = sum(1 for t in prev["mt"] if prev["mt"][t]["st"] in ("staging", "running"))
             pts.append({"fault": "crash" if crash else "drop", "class": cls, "transient": ph, "tasks": "/".join(stg) or "-",
-                        "midreconcile": bool(tset(prev["rcv"])), "alive": alive, "life": prev["life"],
+                        "midreconcile": bool(tset(prev["rcv"]) or tset(prev["rq"])), "alive": alive, "life": prev["life"],
                         "stable": sorted(v for v in prev["env"].values() if v not in TRANSIENT and v != "none")})
         prev = a["st"]
     return pts
@@ -596,7 +618,7 @@ def run(ctx):
             cex.append((prop, norm(r.counterexample())))
     # 3. scenarios from the model
     nsim, depth = (500, 70) if quick else (2500, 80)
-    want = 17 if quick else 60
+    want = 18 if quick else 60
     gen = consts(["k1", "k2", "k3"], ["e1", "e2"], 2, 2, dv)
     behs = ctx.simulate("RestartGen", None, nsim, depth, cfg_text=cfg_gen(gen), seed=ctx.seed * 104729 + 17)
     scenarios, by_id = [], {}
@@ -624,7 +646,9 @@ def run(ctx):
     for acts in cands:
         keys = tuple(point_key(p) for p in fault_points(acts))
         if len(keys) == 1:
-            single.setdefault(keys[0], acts)
+            single.setdefault(keys[0], [])
+            if len(single[keys[0]]) < 6:
+                single[keys[0]].append(acts)   # the shortest few: the first one the driver can impose is taken
         elif len(keys) > 1:
             multi.setdefault(keys, acts)
     total = want + len(cex)
@@ -633,16 +657,23 @@ def run(ctx):
     for key in sorted(single, key=rank):
         if len(scenarios) >= total - min(nseq, len(multi)):
             break
-        s = try_conv(single[key], "simulation")
-        if s is None:
+        for acts in single[key]:
+            s = try_conv(acts, "simulation")
+            if s is not None:
+                scenarios.append(s)
+                break
             undr += 1
-            continue
-        scenarios.append(s)
     covered = {point_key(p) for s in scenarios for p in s["model"]["points"]}
-    for keys in sorted(multi, key=lambda ks: (len(ks), -len([k for k in ks if k not in covered]), ks)):
-        if len(scenarios) >= total:
-            break
-        s = try_conv(multi[keys], "simulation")
+    rest = dict(multi)
+    while rest and len(scenarios) < total:
+        def prio(ks):
+            new = [k for k in ks if k not in covered]
+            lost = any(k[0] == "drop" and k[3] and k not in covered for k in ks)      # answer to RECONCILE lost
+            midk = any(k[0] == "crash" and k[3] and k not in covered for k in ks)     # killed while reconciling
+            return (0 if lost else 1 if midk else 2, len(ks), -len(new), ks)
+        keys = min(rest, key=prio)
+        acts = rest.pop(keys)
+        s = try_conv(acts, "simulation")
         if s is None:
             undr += 1
             continue
@@ -659,10 +690,17 @@ def run(ctx):
     ctx.exhaustive = False
     ctx.extra["fault_points"] = sorted({json.dumps(point_key(p)) for s in scenarios for p in s["model"]["points"]})
     # 4. replay on the real core
+    def unmet(ls):
+        return [ln for ln in ls if ln["ev"] in ("MGateWait", "Reconciled", "CoreStarted", "GateReached") and not ln.get("ok", True)]
+
     lines = run_isolated(ctx, scenarios)
-    bad = [ln for ln in lines if ln["ev"] in ("MGateWait", "Reconciled", "CoreStarted", "GateReached") and not ln.get("ok", True)]
+    bad = unmet(lines)
     if bad:
-        raise vlib.Inconclusive("the simulation could not impose a schedule: %s" % json.dumps(bad[:3]))
+        # a hold point not reached in time (the machine may be starved): those scenarios once more, on a quieter machine
+        again = sorted({b["scn"] for b in bad})
+        ctx.log("hold points not reached in scenarios %s: running them again" % again)
+        lines = [ln for ln in lines if ln.get("scn") not in again] + run_isolated(ctx, [by_id[i] for i in again], procs=3)
+        bad = unmet(lines)
     plines = project(lines)
     tf = ctx.path("trace.ndjson")
     ctx.write_ndjson(tf, plines)
@@ -699,6 +737,13 @@ def run(ctx):
         sig["scn"] = scn
         sig["points"] = json.dumps([(p["fault"], p["transient"], p["tasks"]) for p in m.get("points", [])])
         ctx.add_violation(sig, replay_obj={"scenario": by_id.get(scn), "trace": [l for l in lines if l.get("scn") == scn]})
+    if bad:
+        # a hold point that is never reached: the core did not do what the model expects of it there. With violations on
+        # record that is part of the picture; without any it is a schedule the simulation failed to impose - no verdict.
+        ctx.observations.append("hold points not reached / waits not satisfied: %s" % json.dumps(
+            [{k: b.get(k) for k in ("scn", "ev", "point")} for b in bad[:6]]))
+        if not ctx.violations and not ctx.known_hit:
+            raise vlib.Inconclusive("the simulation could not impose a schedule: %s" % json.dumps(bad[:3]))
     for prop, _ in cex:
         s = [x for x in scenarios if x["model"]["origin"] == "counterexample:" + prop][0]
         if (s["id"], "NoFriendlyFire") not in flagged:
